@@ -615,6 +615,9 @@ class ProgGen(object):
         if c == "asg":
             x, vt = r.choice(asg)
             v = self.rhs(vt, scope, d)
+            if isinstance(vt, list) and vt[0] == "rec" and not self.in_fun and v.get("e") == "var" and v["x"] != x:
+                # known finding F16 (emerge pass): two file-level record variables naming one record; build a new record instead
+                v = self.default_value(vt, scope, d)
             if isinstance(vt, list) and vt[0] == "arr":
                 # keep the statically known length valid: arrays are only re-assigned to arrays of known length
                 if v.get("e") == "newarr":
